@@ -49,6 +49,18 @@ def check_table_roles(cx: Cx, ob: Ob, tables_wanted: list[str]) -> None:
     two_records = len(rec_params) > 1
     if two_records:
         ob.undecide(f"_index takes two records ({', '.join(rec_params)}): which of them the keys and which the values must come from depends on what its call sites pass, which this rule does not relate")
+    # writes into the lookup tables that add_record makes itself, next to _index: key and value must come from
+    # ONE record (a value of the incoming record stored under a name of the existing one is a value that no
+    # record of the converter carries - the tables and the records part ways)
+    arf = cx.model.functions.get(f"{CONV}.add_record")
+    if arf is not None:
+        for table, ents in index_method_entries(cx, arf, ob.id).items():
+            if table not in tables_wanted:
+                continue
+            for e in ents:
+                vrec = e.value[1] if op(e.value) == "attr" else None
+                if e.record is not None and vrec is not None and vrec != e.record:
+                    ob.violate(e.fn, e.site, f"add_record writes {table}[<name of `{show(e.record)[:30]}`>] = `{show(e.value)[:40]}`, a value of another record: the table then holds something no record of the converter carries (a converter built from the same records answers differently)", detail=f"{table}:cross-record")
     for table in tables_wanted:
         key_fields, value_field = TABLES[table]
         for origin, entries in (("constructor", ctor.get(table)), ("_index", idx.get(table))):
